@@ -1,11 +1,10 @@
-use palette::{convert::FromColorUnclamped, Hsl, Hsv};
+use palette::{Lab, Lch, FromColor, white_point::D65, color_difference::Ciede2000};
 fn main(){
-    let hsv = Hsv::new_srgb(60.0f32, 2e-9f32, 1.0f32);
-    let hsl = Hsl::from_color_unclamped(hsv);
-    println!("{:?}", hsl);
-    let i = pvmon::conv_table::types().iter().position(|t| t.name=="Hsv<Srgb>/f32").unwrap();
-    let j = pvmon::conv_table::types().iter().position(|t| t.name=="Hsl<Srgb>/f32").unwrap();
-    println!("{:?}", pvmon::conv_table::convert(i,j,[60.0, 2e-9f32 as f64, 1.0]));
-    let l = pvmon::gen::lattice(pvmon::conv_table::types()[i].space);
-    println!("{}", l.iter().filter(|v| v[2]==1.0 && v[1]>0.0 && v[1]<1e-7).count());
+    let b = ["0x40424c001ac601d0", "0x3ff39d44fd28f481", "0x405fd35585232b9c", "0x40424c03e3cd0100", "0x3ff3a0cc23a8b862", "0x405fd347ee4dfdd2"];
+    let v: Vec<f64> = b.iter().map(|s| f64::from_bits(u64::from_str_radix(s.trim_start_matches("0x"),16).unwrap())).collect();
+    let la = Lab::<D65,f64>::new(v[0],v[1],v[2]); let lb = Lab::<D65,f64>::new(v[3],v[4],v[5]);
+    println!("{:?} {:?}", la, lb);
+    let (ca, cb) = (Lch::from_color(la), Lch::from_color(lb));
+    println!("{:?} {:?}", ca, cb);
+    println!("lab {} lch {} lab(lch) {} model {:?}", la.difference(lb), ca.difference(cb), Lab::from_color(ca).difference(Lab::from_color(cb)), pvmon::refmodel::diff::ciede2000([v[0],v[1],v[2]],[v[3],v[4],v[5]]));
 }
